@@ -128,7 +128,7 @@ def classify(pid, results, baseline, known):
 
 
 def write_replay(pid, o, workdir, note=""):
-    d = os.path.join(VERIF, "out", "replay", pid)
+    d = os.path.join(os.environ.get("VERIF_OUT_DIR") or os.path.join(VERIF, "out"), "replay", pid)
     os.makedirs(d, exist_ok=True)
     name = "".join(c if c.isalnum() or c in "-_." else "_" for c in o["name"])[:150]
     path = os.path.join(d, name + ".json")
@@ -233,8 +233,9 @@ def main():
 
 
 def write_evidence(pid, P, tier, seed, t0, rep, fatal, results=None):
-    os.makedirs(os.path.join(VERIF, "evidence"), exist_ok=True)
-    path = os.path.join(VERIF, "evidence", pid + ".json")
+    evdir = os.environ.get("VERIF_EVIDENCE_DIR") or os.path.join(VERIF, "evidence")
+    os.makedirs(evdir, exist_ok=True)
+    path = os.path.join(evdir, pid + ".json")
     ev = {"property_id": pid, "tier": tier, "seed": seed, "level": P["level"], "wall_s": round(time.time() - t0, 2)}
     checker = "python3 checks/run.py %s --tier %s  (govc: go/ssa naive form -> SMT-LIB; z3 5.1.0, z3 4.8.12, cvc5 1.0 portfolio)" % (pid, tier)
     if rep is None:
